@@ -30,6 +30,8 @@ def classify(run, tl, classes):
     _, m = schedlab.f2c_fn(run.spec)
     if m and len(set(m.values())) < len(m):
         classes.add("many-to-one flow2class")
+    if m and any(c in m and c != f for f, c in m.items()):
+        classes.add("class ids that are other flows' ids")
     return big and at_end
 
 
@@ -192,7 +194,11 @@ def table_strategy(kind):
         many = st.tuples(flows, ncls, st.lists(val, min_size=n, max_size=n), st.lists(st.integers(0, 4), min_size=n, max_size=n)).map(
             lambda t: {"table": [[10 + c, t[2][c]] for c in range(t[1])],
                        "f2c": [[f, 10 + (t[3][i] % t[1])] for i, f in enumerate(t[0])], "flows": t[0]})
-        return kgen.weighted([(ident, 2), (many, 1)])
+        # class ids are opaque: they may coincide with the ids of flows that belong to other classes (f -> the next flow's id)
+        rot = st.tuples(flows, st.lists(val, min_size=n, max_size=n)).map(
+            lambda t: {"table": [[f, v] for f, v in zip(t[0], t[1])],
+                       "f2c": [[f, t[0][(i + 1) % len(t[0])]] for i, f in enumerate(t[0])], "flows": t[0]})
+        return kgen.weighted([(ident, 2), (many, 1), (rot, 1)] if n > 1 else [(ident, 2), (many, 1)])
     return nfl.flatmap(build)
 
 
